@@ -156,6 +156,8 @@ class SymSeq(Model):
             stop = I.to_num(idx.stop)
             I.P.check("slice-within-length[%s]" % I.site(None), z3.And(I.P.z(stop) >= 0, I.P.z(stop) <= I.P.z(self.length)), "[:%r] of %s" % (stop, self.key))
             return SymSeq("%s[:%s]" % (self.key, stop.key()), stop, self.elem, self.facts)
+        if isinstance(idx, slice) and idx.start is None and idx.stop is None and idx.step is not None and I.equal(idx.step, -1) is True:
+            return py_reversed(I, self)  # xs[::-1]
         if isinstance(idx, slice):
             if idx.step is not None or idx.stop is not None:
                 raise Unsupported("slice of a symbolic sequence other than [k:]")
